@@ -1,7 +1,7 @@
 from props import tu, run, FCO, NONULL
 from propcfg_names import ORG_NAMES
 
-ORGS = list(range(25)) + [100]
+ORGS = list(range(27)) + [100]
 
 CFG = dict(
     level="exploration",
